@@ -192,6 +192,18 @@ def chaining(prog: Program, rep) -> None:
             break
         caps = [i for i, it in enumerate(p.items) if is_cap_test(it) and i > idx[0]]
         if not caps:
+            # the test may come first, on the very value that is then stored: `v = result.lamb; if v >= lamb_max: raise ..; lamb = v`
+            for i, it in enumerate(p.items[:idx[0]]):
+                if it[0] != "test":
+                    continue
+                try:
+                    rt = ff.resolved(ff.stmt_of(it[1]).stmt, it[1])
+                except Exception:
+                    continue
+                at2 = atoms_of(rt, it[2])
+                if len(at2) == 1 and at2[0][0] == "<" and at2[0][1] == val and at2[0][2].endswith("lamb_max"):
+                    caps.append(i)
+        if not caps:
             bad = "a path from the new lamb to the next trial does not pass the lamb_max test"
             break
     rep.check(bad is None, "lambda-cap", sv.qualname, short(s.stmt), "every completed iteration defines lamb once and then passes the test `lamb >= params.lamb_max`" + (f" ({bad})" if bad else ""), sv.loc(s.stmt))
